@@ -58,7 +58,13 @@ func (c *RPCCollector) WriteResults() error {
 			panic(err)
 		}
 
-		b, err := json.Marshal(node.rate)
+		// the node may still be recording: copy its data under its lock
+		node.mu.Lock()
+		rate := append([]int{}, node.rate...)
+		calls := append([]rpcDataPoint{}, node.calls...)
+		node.mu.Unlock()
+
+		b, err := json.Marshal(rate)
 		if err != nil {
 			return err
 		}
@@ -69,7 +75,7 @@ func (c *RPCCollector) WriteResults() error {
 			return err
 		}
 
-		b, err = json.Marshal(node.calls)
+		b, err = json.Marshal(calls)
 		if err != nil {
 			return err
 		}
